@@ -811,9 +811,9 @@ func inclStream(r *Run) {
 			}
 		}
 	}
-	n := 2500
+	n := 10000
 	if r.Tier == "thorough" {
-		n = 60000
+		n = 100000
 	}
 	for i := 0; i < n; i++ {
 		if !r.Mine() {
